@@ -46,7 +46,7 @@ def required_cells(tier):
              'opening-line-differs-from-evaluated-text', 'open:on-the-def-line',
              'traceback-entries-of-inner-frames', 'file-encoding:latin-1',
              'identifier-normalised-by-the-compiler', 'google-block-opens-with-prose:start-line-under-the-header',
-             'escapes-behind-the-last-doctest'])
+             'escapes-behind-the-last-doctest', 'copied-docstrings:freeform', 'copied-docstrings:google'])
 
 
 def gen_doctest(rng, uid, fail_kind):
@@ -441,15 +441,103 @@ def check_module(ctx, idx, seed):
         os.unlink(path)
 
 
+COPIED_DOCSTRING = [
+    'Summary of a function whose documentation was copied.',
+    '',
+    '>>> setup = [1,',
+    '...          2]',
+    '>>> print(len(setup))',
+    '2',
+    '>>> total = [setup[0],',
+    '...          setup[1],',
+    '...          1 / 0]',
+    '>>> never = 1',
+]
+
+
+def probe_copied_docstrings(ctx):
+    """several callables of one module carry the very same docstring text (copy and paste, overloads): every one of their
+    doctests reports its own lines: the start line, every part offset, and the line that raised inside a multi-line
+    statement"""
+    from xdoctest import core
+    for layout in ('freeform', 'google'):
+        names = ['copy_a', 'copy_b', 'copy_c']
+        src = ['import os', '']
+        where = {}
+        for n in names:
+            src += ['def %s():' % n, '    """']
+            body = COPIED_DOCSTRING if layout == 'freeform' else (
+                COPIED_DOCSTRING[:2] + ['Example:'] + ['    ' + ln for ln in COPIED_DOCSTRING[2:]])
+            base = len(src)
+            for k, ln in enumerate(body):
+                src.append(('    ' + ln) if ln else '')
+                if ln.strip() == '>>> setup = [1,':
+                    where[n, 'start'] = base + k + 1
+                if ln.strip() == '...          1 / 0]':
+                    where[n, 'fail'] = base + k + 1
+            src += ['    """', '    return 1', '', '']
+        path = os.path.join(ctx.tmp, 'cp_%d_%s_%d_zz.py' % (ctx.seed, layout, ctx.shard))
+        with open(path, 'w') as f:
+            f.write('\n'.join(src) + '\n')
+        flines = src
+        case = {'probe': 'copied-docstrings', 'layout': layout}
+        try:
+            for style in (layout, 'auto'):
+                for rounds in (1, 2):
+                    ctx.evaluation()
+                    with warnings.catch_warnings():
+                        warnings.simplefilter('ignore')
+                        exs = list(core.parse_doctestables(path, style=style, analysis='static'))
+                    got = {e.callname: e for e in exs}
+                    ok = True
+                    for n in names:
+                        e = got.get(n)
+                        if e is None:
+                            ctx.violation('missing', 'doctest %s:0 of a module with copied docstrings was not collected' % n, case)
+                            ok = False
+                            break
+                        import io
+                        import contextlib
+                        with contextlib.redirect_stdout(io.StringIO()):
+                            summ = e.run(on_error='return', verbose=0)
+                        ctx.event('doctests_observed')
+                        rep_start = e.lineno
+                        rep_fail = e.failed_lineno() if summ['failed'] else None
+                        offs = [e.lineno + p.line_offset for p in e._parts]
+                        exp_offs_ok = all(1 <= o <= len(flines) and flines[o - 1].lstrip().startswith('>>>') for o in offs)
+                        if rep_start != where[n, 'start'] or rep_fail != where[n, 'fail'] or not exp_offs_ok:
+                            ctx.violation('fail-line' if rep_start == where[n, 'start'] and exp_offs_ok else 'start-line',
+                                          'module whose callables carry the same docstring text (style=%s, collection round %d): '
+                                          'doctest %s:0 reports start line %r, part lines %r and failing line %r; its first prompt is on '
+                                          'line %d and the statement that raises on line %d\n--- module ---\n%s' % (
+                                              style, rounds, n, rep_start, offs, rep_fail, where[n, 'start'], where[n, 'fail'],
+                                              '\n'.join('%3d %s' % (i + 1, ln) for i, ln in enumerate(flines))), case)
+                            ok = False
+                            break
+                    if ok:
+                        ctx.cell('copied-docstrings:' + layout)
+                        ctx.nontrivial((layout, style, rounds))
+        finally:
+            try:
+                os.unlink(path)
+            except OSError:
+                pass
+
+
 def run_shard(ctx):
     warnings.simplefilter('ignore')
     n = ctx.pick(1200, 20000)
     for idx in ctx.my_indices(n):
         check_module(ctx, idx, ctx.case_seed(idx))
+    if ctx.shard == 3 % ctx.nshards:
+        probe_copied_docstrings(ctx)
 
 
 def replay(case, ctx):
     warnings.simplefilter('ignore')
+    if case.get('probe') == 'copied-docstrings':
+        probe_copied_docstrings(ctx)
+        return
     check_module(ctx, case['index'], case['case_seed'])
 
 
